@@ -48,3 +48,10 @@ func checkBlame(r *Run, scope Scope, minSites int) {
 	r.Analysed["C04.B tag sites"] = len(sites)
 	_ = fmt.Sprint
 }
+
+func checkBytesCoverage(r *Run, rule string, scope Scope, min int) {
+	r.CheckFieldCoverage(rule, scope, map[string]bool{"Bytes": true}, bytesExempt, min)
+}
+
+// (type.method.field) -> reason; each confirmed by reading
+var bytesExempt = map[string]string{}
